@@ -367,7 +367,11 @@ func checkOnce(t *T, prop func(*T)) (err *testError) {
 		t.tb.Helper()
 	}
 	defer func() {
-		err = panicToError(recover(), 3)
+		// A panic raised by a Cleanup function replaces the outcome of prop, except that
+		// skipping (invalid data) during cleanup can not undo a falsification.
+		if errC := panicToError(recover(), 3); errC != nil && !(errC.isInvalidData() && err != nil && !err.isInvalidData()) {
+			err = errC
+		}
 		if err == nil || err.isInvalidData() {
 			// A non-fatal failure signalled after prop has returned or skipped
 			// (e.g. from a Cleanup function) belongs to this test case, not to the next one.
@@ -378,6 +382,7 @@ func checkOnce(t *T, prop func(*T)) (err *testError) {
 	}()
 
 	defer t.cleanup()
+	defer func() { err = panicToError(recover(), 3) }() // the outcome of prop itself, before any Cleanup function runs
 	prop(t)
 	t.failOnError()
 
